@@ -5,7 +5,7 @@ import genprop
 
 def check(res):
     corpus = corpora.c02(res.seed, res.tier)
-    genprop.run(res, "C02", PROPFILE, corpus)
+    genprop.run(res, "C02", PROPFILE, corpus, spec_cmp="obs_same_types")
 
 
 PROPFILE = None
